@@ -30,6 +30,15 @@ FINDINGS = {
 }
 
 
+def annotate(op, reply):
+    """which of several woken waiters enters after a Broadcast is the Go runtime's choice: copy the observation into the op"""
+    if op.startswith("go ") and len(op.split()) == 2:
+        for x in reply.split():
+            if x.startswith("woke=") and x[5:].isdigit():
+                return op + " " + x[5:]
+    return op
+
+
 def spec_trace(rep):
     """C18s: the log is the implementation's behaviour"""
     inside, creating, live = set(), set(), set()
@@ -81,7 +90,7 @@ def run(ctx):
     if K.build_hx(ctx) and K.build_drv(ctx):
         rc = "yes" if (facts.get("everyEntrantCounts") == "yes" and facts.get("decDeleteAtomic") == "yes") else "no"
         args = ["refCounted=" + rc, "callbackCompares=" + facts.get("callbackCompares", "unknown")]
-        c = K.correspondence(ctx, "C18", args)
+        c = P.correspondence_observed(ctx, "C18", args, annotate)
         corrs.append(("C18", args, c))
         # genuinely concurrent summoners, closers and stale handles; the hook log must be a trace of the model
         targs = args + ["mode=trace"]
